@@ -282,6 +282,10 @@ pub fn c07(ctx: &Ctx) -> PropResult {
     for p in progs {
         cases.push(Case::new(Kind::Lex, p).tag("program"));
     }
+    // (appended, round 16) a backslash before every printable character inside a string literal; the escape-like forms
+    for src in crate::props6::every_escape_family().into_iter().chain(crate::props6::escape_forms()) {
+        cases.push(Case::new(Kind::Lex, src).tag("escape-forms"));
+    }
     let stats = run_cases(&ctx.driver, cases, &lex_oracle, &no_known, ctx.threads);
     PropResult {
         stats,
@@ -539,10 +543,14 @@ pub fn c08(ctx: &Ctx) -> PropResult {
     for src in crate::props6::case_mapping_words() {
         cases.push(Case::new(Kind::Parse, src).tag("case-mapping-words"));
     }
+    // (appended, round 16) after every kind of line end, a line with a multi-byte character at every small byte offset
+    for src in crate::props6::line_start_multibyte_family() {
+        cases.push(Case::new(Kind::Parse, src).tag("line-start-multibyte"));
+    }
     let stats = run_cases(&ctx.driver, cases, &parse_oracle, &no_known, ctx.threads);
     PropResult {
         stats,
-        rule: format!("every sequence of <= {max_len} tokens over all {k} token kinds rendered to text (exhaustive), random sequences to 10 tokens, every string of length <= 2 over the lexical alphabet, token deletion/duplication/transposition/truncation of repository programs, bracket nesting to depth 200; every diagnostic is rendered with {{:?}}; non-trivial = the text lexes (parser reached); IMPORT with every string position empty / blank / odd in nine forms; characters of other scripts and invisible characters at the start of a token in sixteen contexts; 1 .. 300 repetitions of seven kinds of syntax error; string literals with escape forms of other languages; statements breaking off at every point with the input ending after the line break; invalid assignment targets under 1 .. 64 pairs of parentheses"),
+        rule: format!("every sequence of <= {max_len} tokens over all {k} token kinds rendered to text (exhaustive), random sequences to 10 tokens, every string of length <= 2 over the lexical alphabet, token deletion/duplication/transposition/truncation of repository programs, bracket nesting to depth 200; every diagnostic is rendered with {{:?}}; non-trivial = the text lexes (parser reached); IMPORT with every string position empty / blank / odd in nine forms; characters of other scripts and invisible characters at the start of a token in sixteen contexts; 1 .. 300 repetitions of seven kinds of syntax error; string literals with escape forms of other languages; statements breaking off at every point with the input ending after the line break; invalid assignment targets under 1 .. 64 pairs of parentheses; after twelve kinds of line end x six separators, a line with a multi-byte character at byte offsets 0 .. 5"),
         exhaustive: false,
         notes: vec![],
     }
